@@ -2,6 +2,7 @@
 import re
 
 from common import UNORDERED_RX
+from factlib import trace
 
 SCOPE = re.compile(r"^async_graphql::(resolver_utils|dynamic::resolve|types::external::list|types::external::optional|base)\b")
 
@@ -69,3 +70,22 @@ def run(F, R):
     okp = len(ps) == 1 and all(ae.must_pass([c.bb for c in ps], r) for r in rets) and not nested and not [x for x in ae.calls() if x.callee and re.search(r"::(any|all|contains|find|position|iter)$", x.callee)]
     R.check(okp, "R05.4", "add_error:always-pushes", ae.where(), "push on every path", "add_error records an error only conditionally (deduplication / filtering): with several failing "
             "siblings the surviving error depends on which completes first")
+
+    R.rule("R05.5", "absorbed errors are reported as recorded: in both execute_once bodies the drained error list (mem::take of QueryEnv.errors) is handed to "
+                    "Response.errors.extend directly — no re-grouping, merging or re-ordering pass over it (the list is filled in completion order, so anything "
+                    "computed from the relative order of its entries is schedule dependent)")
+    n5 = 0
+    for b in F.bodies.values():
+        if not re.search(r"^async_graphql::(dynamic::)?schema::\{impl#\d+\}::execute_once::\{closure#0\}$", b.defp):
+            continue
+        exts = [c for c in b.calls() if ((c.declared or "").endswith("Extend::extend") or re.search(r"vec::\{impl#\d+\}::extend$", c.callee or "")) and
+                any(k == "field" and ".errors" in x for k, x in trace(b, c.args[0])[0])]
+        for c in exts:
+            n5 += 1
+            o, passed = trace(b, c.args[1], through_calls=False)
+            direct = any(k == "call" and x.callee and x.callee.endswith("core::mem::take") for k, x in o)
+            key = "static" if "::dynamic::" not in b.defp else "dynamic"
+            R.check(direct, "R05.5", key + ":execute_once:errors-extended-with-the-drained-list", c.where(), "extend(mem::take(errors))",
+                    "Response.errors is extended with a list that was rebuilt from the drained errors (origin %s): a pass that merges or reorders entries makes the "
+                    "reported errors depend on the order in which sibling resolvers completed" % sorted({(x.callee or '?').split('::')[-1] for k, x in o if k == 'call'})[:3])
+    R.floor("R05.5", "Response.errors.extend sites in execute_once", n5, 2)
